@@ -400,6 +400,7 @@ func (p *pathCtx) checkAssert(id string, c *Term) {
 	switch r {
 	case Sat:
 		p.job.noteFailing(id)
+		p.job.tookCandidate(id)
 		p.cands = append(p.cands, Candidate{AssertID: id, Kind: "assert", Model: m, Margin: margin, Path: p.pathString()})
 	case Unknown:
 		p.inconclusive = append(p.inconclusive, "assert "+id+": solver unknown")
